@@ -4,7 +4,7 @@
 From Coq Require Import ZArith List Lia Bool.
 From Coq Require Import ZifyBool.
 From RTP Require Import Base.Bits Base.Res Base.ListX Base.Tactics Model.Leb128 Model.Obu Model.Av1Legacy Model.Av1Pay
-  Proofs.Leb128Proofs Proofs.C13_Stream Proofs.C13_PayStream Proofs.C13_Lossless.
+  Spec.Av1Rtp Proofs.Leb128Proofs Proofs.C13_Stream Proofs.C13_PayStream Proofs.C13_Lossless.
 Import ListNotations.
 Open Scope Z_scope.
 
